@@ -378,6 +378,20 @@ where
         let actions_sv = SparseVec::<usize>::from(&actions, 0, usize::from(grm.tokens_len()));
         let gotos_sv = SparseVec::<usize>::from(&gotos, 0, usize::from(grm.rules_len()));
 
+        // Shift/reduce conflicts are found while iterating over the (hashmap) edges of a state:
+        // put both lists in a fixed order so that the same grammar always leads to the same
+        // (serialised) state table.
+        shift_reduce.sort_by_key(|(tidx, pidx, stidx)| {
+            (usize::from(*stidx), usize::from(*tidx), usize::from(*pidx))
+        });
+        reduce_reduce.sort_by_key(|(tidx, pidx, r_pidx, stidx)| {
+            (
+                usize::from(*stidx),
+                usize::from(*tidx),
+                usize::from(*pidx),
+                usize::from(*r_pidx),
+            )
+        });
         let conflicts = if !(reduce_reduce.is_empty() && shift_reduce.is_empty()) {
             Some(Conflicts {
                 reduce_reduce,
